@@ -125,6 +125,11 @@ class CutUamiv(Obligation):
             h.claim('raises-on-partial', z3.BoolVal(True))
             return
         off, nt, dbs = out['offset'], out['ntimes'], out['data_block_size']
+        if bool(nt == 0):
+            # np.memmap contract: mapping zero bytes raises ValueError
+            h.observe('raised', True)
+            h.claim('raises-on-partial', z3.BoolVal(True))
+            return
         h.observe('ntimes', nt)
         h.claim('header-offset-matches-layout', symx._b(off == lay.H))
         h.claim('block-size-matches-layout', symx._b(dbs * 4 == lay.B))
